@@ -833,7 +833,11 @@ def resize_bytes(fobj, old_size: int, new_size: int, offset: int) -> None:
         offset (int): The start of the area
     Raises:
         IOError
+        ValueError: In case invalid parameters were given
     """
+
+    if old_size < 0 or new_size < 0 or offset < 0:
+        raise ValueError
 
     if new_size < old_size:
         delete_size = old_size - new_size
